@@ -263,9 +263,10 @@ theorem ws_junk_never_starts (p : Proto) (didInit : Bool) (f : ClientFrame)
   rcases h with h | h | h <;> subst h <;> cases p <;> cases didInit <;> simp [dispatch]
 
 /-- **ws_observe_separates** — what the dispatch tie observes determines the action, except that dropping
-    a frame and stopping an operation that does not exist look the same (as they are, to a client). -/
+    a frame and stopping an operation that does not exist look the same (as they are, to a client), and that
+    a reset connection (observed code 0) only says "some close". -/
 theorem ws_observe_separates (didInit : Bool) (a b : Action)
-    (h : obsMatches (observe didInit a) (observe didInit b) = true) :
+    (h : obsMatches (observe didInit a) (observe didInit b) = true) (hb : ∀ c, b = .close c → c ≠ 0) :
     a = b ∨ ((a = .ignore ∨ a = .runStop) ∧ (b = .ignore ∨ b = .runStop)) := by
   cases a <;> cases b <;> cases didInit <;> simp_all [observe, obsMatches]
 
